@@ -75,8 +75,8 @@ def run(ck):
         cdiffs = []
         for l in clines:
             w = l.split()
-            if l.startswith("propfail ") and len(w) >= 3 and w[2] == "client_in_order":
-                ck.fail_input("client_in_order", l, cscn.get(w[1], []) + [l])
+            if l.startswith("propfail ") and len(w) >= 3 and w[2] in ("client_in_order", "resend_before_new"):
+                ck.fail_input(w[2], l, cscn.get(w[1], []) + [l])
             elif l.startswith("diff "):
                 cdiffs.append(l)
         if cdiffs and not ck.violations:
